@@ -137,10 +137,17 @@ def _tuple_split(stmts, func):
                 and isinstance(s.value, ast.Tuple) and len(s.targets[0].elts) == len(s.value.elts) \
                 and all(isinstance(t, ast.Name) for t in s.targets[0].elts) \
                 and not any(isinstance(e, ast.Starred) for e in s.value.elts):
-            tn = set(t.id for t in s.targets[0].elts)
-            reads = set(x.id for e in s.value.elts for x in ast.walk(e) if isinstance(x, ast.Name))
-            if not (tn & reads) and len(tn) == len(s.targets[0].elts):
+            tn = [t.id for t in s.targets[0].elts]
+            # sequential assignment is exact when no target is read by a *later* element
+            safe = len(set(tn)) == len(tn)
+            for i_, t_ in enumerate(tn):
+                for e_ in s.value.elts[i_ + 1:]:
+                    if any(isinstance(x, ast.Name) and x.id == t_ for x in ast.walk(e_)):
+                        safe = False
+            if safe:
                 for t, e in zip(s.targets[0].elts, s.value.elts):
+                    if isinstance(e, ast.Name) and e.id == t.id:
+                        continue             # x = x
                     na = ast.copy_location(ast.Assign(targets=[ast.Name(id=t.id, ctx=ast.Store())], value=e), s)
                     if getattr(s, '_norm', False):
                         na._norm = True
@@ -388,6 +395,85 @@ class Unroll(object):
 
 # ---------------------------------------------------------------------------------------------- thread
 _CLS = [None]      # class whose method is being rewritten (methods of it are known callables)
+_MOD = [None]      # ModuleInfo being rewritten
+_MODS = [None]     # all modules (name -> ModuleInfo)
+
+
+def _find_class(modname, cname):
+    mods = _MODS[0] or {}
+    m = mods.get(modname)
+    if m is None:
+        return None, None
+    for s in m.tree.body:
+        if isinstance(s, ast.ClassDef) and s.name == cname:
+            return m, s
+    # imported from a sibling module
+    for s in m.tree.body:
+        if isinstance(s, ast.ImportFrom) and s.level >= 1 and s.module:
+            for a in s.names:
+                if (a.asname or a.name) == cname:
+                    return _find_class(s.module, a.name)
+    return None, None
+
+
+def _find_func(modname, fname):
+    mods = _MODS[0] or {}
+    m = mods.get(modname)
+    if m is None:
+        return None, None
+    for s in m.tree.body:
+        if isinstance(s, ast.FunctionDef) and s.name == fname:
+            return m, s
+    return None, None
+
+
+def _method(cls, name):
+    for d in cls.body:
+        if isinstance(d, ast.FunctionDef) and d.name == name:
+            return d
+    return None
+
+
+def _returns_nonnull(modname, cls, fn, depth=0):
+    """Every way out of function fn returns an object that cannot be None (constructor calls, calls of functions with
+    the same property); falling off the end or `return None` / unknown values make it False."""
+    if depth > 5 or fn is None:
+        return False
+    body = fn.body
+    if _falls_through(body):
+        return False
+    for n in _walk_own(body):
+        if isinstance(n, (ast.Yield, ast.YieldFrom)):
+            return False
+        if isinstance(n, ast.Return):
+            if n.value is None or not _call_nonnull(n.value, modname, cls, depth + 1):
+                return False
+    return True
+
+
+def _call_nonnull(v, modname, cls, depth=0):
+    if isinstance(v, (ast.Tuple, ast.List, ast.Dict, ast.Set, ast.JoinedStr)):
+        return True
+    if isinstance(v, ast.Constant):
+        return v.value is not None
+    if not isinstance(v, ast.Call):
+        return False
+    f = v.func
+    if isinstance(f, ast.Name):
+        if f.id[:1].isupper() or f.id == 'cls':
+            return True
+        m, fn = _find_func(modname, f.id)
+        return fn is not None and _returns_nonnull(m.name, None, fn, depth)
+    if isinstance(f, ast.Attribute) and isinstance(f.value, ast.Name):
+        if f.value.id in ('self', 'cls') and cls is not None:
+            return _returns_nonnull(modname, cls, _method(cls, f.attr), depth)
+        if f.value.id[:1].isupper():
+            m, c = _find_class(modname, f.value.id)
+            if c is not None:
+                return _returns_nonnull(m.name, c, _method(c, f.attr), depth)
+        if f.attr[:1].isupper():
+            return True          # module.ClassName(...)
+    return False
 
 
 def _known(v):
@@ -408,6 +494,8 @@ def _known(v):
         nm = f.id if isinstance(f, ast.Name) else f.attr if isinstance(f, ast.Attribute) else ''
         if nm[:1].isupper():
             return ('notnone',)          # a class instantiation is never None (its truth value is not assumed)
+        if _MOD[0] is not None and _call_nonnull(v, _MOD[0].name, cls):
+            return ('notnone',)          # a function all of whose returns construct an object
     if isinstance(v, ast.Attribute) and isinstance(v.value, ast.Name) and v.value.id in ('self', 'cls'):
         return None
     if isinstance(v, ast.Lambda):
@@ -851,6 +939,57 @@ def _fold_const_tests(stmts, func):
     return out if changed else None
 
 
+# ---------------------------------------------------------------------------------------------- repeated tests
+def _atom(test):
+    neg = False
+    e = test
+    while isinstance(e, ast.UnaryOp) and isinstance(e.op, ast.Not):
+        e = e.operand
+        neg = not neg
+    return e, neg
+
+
+def _repeated_tests(stmts, func):
+    """Inside the branch of `if C:` a nested `if C:` / `if not C:` on the same simple read (a name or attribute chain
+    whose base name is not re-bound in the branch) is decided - the same assumption the path analysis makes when it
+    drops paths asserting an atom both ways."""
+    changed = [False]
+
+    def fold_in(branch, text, truth, names):
+        if any(n in _stores(branch) for n in names):
+            return branch
+        out = []
+        for st in branch:
+            if isinstance(st, _DEF):
+                out.append(st)
+                continue
+            if isinstance(st, ast.If):
+                e, neg = _atom(st.test)
+                if _simple(e) and ast.unparse(e) == text:
+                    val = truth != neg
+                    taken = fold_in(st.body if val else st.orelse, text, truth, names)
+                    out.extend(taken)
+                    changed[0] = True
+                    continue
+            for field in ('body', 'orelse', 'finalbody'):
+                sub = getattr(st, field, None)
+                if isinstance(sub, list) and sub and isinstance(sub[0], ast.stmt):
+                    setattr(st, field, fold_in(sub, text, truth, names) or [ast.copy_location(ast.Pass(), st)])
+            for h in getattr(st, 'handlers', []) or []:
+                h.body = fold_in(h.body, text, truth, names) or [ast.copy_location(ast.Pass(), h)]
+            out.append(st)
+        return out
+    for s in stmts:
+        if isinstance(s, ast.If):
+            e, neg = _atom(s.test)
+            if _simple(e) and not isinstance(e, ast.Constant):
+                names = set(x.id for x in ast.walk(e) if isinstance(x, ast.Name))
+                text = ast.unparse(e)
+                s.body = fold_in(s.body, text, not neg, names) or [ast.copy_location(ast.Pass(), s)]
+                s.orelse = fold_in(s.orelse, text, neg, names)
+    return stmts if changed[0] else None
+
+
 # ---------------------------------------------------------------------------------------------- dead stores
 def _pure_value(v):
     if _simple(v) or isinstance(v, ast.Lambda):
@@ -907,9 +1046,11 @@ def _functions(tree):
 def simple_passes(modules, log):
     """One round of the local passes over every function; True when anything changed."""
     changed = False
+    _MODS[0] = modules
     for m in modules.values():
         if m.name.startswith('examples'):
             continue
+        _MOD[0] = m
         dd = Dedispatch(m.tree)
         ur = Unroll(m.tree)
         for (fn, cls) in _functions(m.tree):
@@ -922,6 +1063,7 @@ def simple_passes(modules, log):
                             ('dispatch table turned into an if-chain', lambda b, f_, cls=cls: dd.block(b, f_, cls)),
                             ('tuple assignment split', _tuple_split),
                             ('constant test folded', _fold_const_tests),
+                            ('repeated test decided', _repeated_tests),
                             ('continuation threaded into the tails of a flag-setting statement', _thread),
                             ('callee copy-propagated', _callee_copy),
                             ('single-use temporary forwarded', _temp_forward)):
